@@ -15,7 +15,7 @@ newlines, leading/trailing blanks in paths.
 """
 import os
 
-from pylib import atomic
+from pylib import atomic, fsrec
 from pylib.common import mktmp, rng, use_repo
 
 WORDS = ["a", "b c", "x->y", "é", "d  e", "->z", "q->", "ü b", "CONTENTS", "#new", "1 2 3"]
@@ -169,9 +169,11 @@ def run(ck):
                 return {"absent": True}
             return {"entries": project(ContentsFile(p))}
 
-        evs, info = atomic.scenario(tid, os.path.join(root, f"r{tid}"), setup, op, reader=reader,
-                                    watch_paths=["pkg/CONTENTS"], frame=["pkg/CONTENTS", "pkg/.update.CONTENTS"],
-                                    faults=True, label="contents.flush")
+        # odd scenarios: the write proxy holds at most 8 bytes, so faults and cuts also strike inside write()
+        with fsrec.buffer_limit(8 if tid % 2 else None):
+            evs, info = atomic.scenario(tid, os.path.join(root, f"r{tid}"), setup, op, reader=reader,
+                                        watch_paths=["pkg/CONTENTS"], frame=["pkg/CONTENTS", "pkg/.update.CONTENTS"],
+                                        faults=True, label="contents.flush")
         for e in evs:
             e["case"] = tid
         fs_events += evs
